@@ -218,22 +218,17 @@ def r2(p, rep):
         ok = args[: len(expect)] == expect
         rep.add("C09.R2", f"{f.qualname}:{label}", f"{f.module.rel}:{call.lineno}", ok, f"op({', '.join(args)}) expected op({', '.join(expect)}, ...)")
 
-    f = p.func("update_at.inner", "adapter.numpy.classical_from_numpy")
+    outer, f = common.scatter_combinator_inner(p)
     params = f.params
-    calls = [n for n in walk_no_nested(f.node) if isinstance(n, ast.Call) and isinstance(n.func, ast.Name) and n.func.id == "op"]
+    opname = outer.params[0]
+    calls = [n for n in walk_no_nested(f.node) if isinstance(n, ast.Call) and isinstance(n.func, ast.Name) and n.func.id == opname]
     if not calls:
-        raise AnalysisError("unrecognised idiom: no op(...) call in classical_from_numpy.update_at.inner")
+        raise AnalysisError("unrecognised idiom: the scatter combinator never calls its primitive")
     for c in calls:
-        check_call_order(f, c, params[:3], "op-call")
-    # the first parameter is only rebound through to_tensor (position preserving unpacking)
-    for n in walk_no_nested(f.node):
-        if isinstance(n, ast.Assign):
-            for t in n.targets:
-                names = [e.id for e in (t.elts if isinstance(t, ast.Tuple) else [t]) if isinstance(e, ast.Name)]
-                if params[0] in names:
-                    v = n.value
-                    ok = isinstance(t, ast.Tuple) and names == params[:3] and isinstance(v, ast.Call) and [norm(a) for a in v.args] == params[:3]
-                    rep.add("C09.R2", f"{f.qualname}:rebind({params[0]})", f"{f.module.rel}:{n.lineno}", ok, f"{norm(n)[:80]}")
+        for i in range(min(3, len(c.args))):
+            org = common.origin_params(f, c.args[i])
+            ok = org == {params[i]}
+            rep.add("C09.R2", f"{outer.qualname}:closure:op-arg{i}", f"{f.module.rel}:{c.lineno}", ok, f"argument {i} of the primitive (`{norm(c.args[i])}`) is the closure's parameter `{params[i]}`" if ok else f"argument {i} of the primitive (`{norm(c.args[i])}`) derives from {sorted(org)} instead of `{params[i]}`: the in-place primitive would write into / read from the wrong tensor")
     # (c) update_at_ravelled / elementary update_at: operand 0 derives from tensors[0]
     for qual, mod in (("update_at_ravelled.inner", "adapter.decomposednamedtensor_from_classical"), ("update_at.update_at", "adapter.elementary_from_classical")):
         f = p.func(qual, mod)
@@ -259,6 +254,9 @@ def _derives_from_first_tensor(f, expr, depth=0):
     def base(e):
         if isinstance(e, ast.Attribute) and e.attr == "value":
             e = e.value
+        if isinstance(e, ast.Name) and e.id != star:
+            ds = [n.value for n in walk_no_nested(f.node) if isinstance(n, ast.Assign) and any(isinstance(t, ast.Name) and t.id == e.id for t in n.targets)]
+            return bool(ds) and all(base(d) for d in ds) and depth < 6
         return isinstance(e, ast.Subscript) and isinstance(e.value, ast.Name) and e.value.id == star and isinstance(e.slice, ast.Constant) and e.slice.value == 0
 
     if base(expr):
